@@ -64,11 +64,12 @@ SET_PROPS = [("tts:color", "red"), ("tts:backgroundColor", "blue"), ("tts:opacit
 B, D, E = "1s", "2s", "3s"
 FULL_T = [(b, d, e) for b in (None, B) for d in (None, D) for e in (None, E)]
 RED_T = [(None, None, None), (B, None, None), (None, None, E), (B, D, None)]
+RED3_T = [(None, None, None), (None, None, E), (B, D, None)]
 
 
 def _node_domain(n, full, with_text_flag):
   """list of attribute options for one element of a shape"""
-  tims = FULL_T if full else RED_T
+  tims = FULL_T if full is True else RED3_T if full == "red3" else RED_T
   k = n["k"]
   if k == "br":
     return [None]
@@ -435,7 +436,7 @@ TOK = {"T": "a", "W": "  \n ", "S": None, "E": None, "B": None, "N": None}
 
 def _tok_xml(t, j):
   if t == "T":
-    return "abcd"[j]
+    return "abcdefgh"[j % 8]
   if t == "W":
     return "  \n "
   if t == "S":
